@@ -234,7 +234,8 @@ def stochastic_raytracing(  # TODO: add test
             light = light and not grid[pos].blocks_vision
 
     probs = np.nan_to_num(counts_num / counts_den)
-    visibility = rng.random(probs.shape) <= probs
+    # NOTE: strict, because rng.random() may return 0.0
+    visibility = rng.random(probs.shape) < probs
     return visibility
 
 
